@@ -45,7 +45,7 @@ class C02(Check):
                        "feat:repeated-key", "feat:qudit-measure", "feat:classical-control", "feat:sympy-condition",
                        "feat:bitmask-condition", "feat:indexed-condition", "feat:pauli-measure", "feat:reset",
                        "sim:sv", "sim:dm", "sim:clifford", "sim:stab-sampler", "entry:run", "entry:simulate",
-                       "entry:steps", "entry:sample", "entry:run_sweep", "entry:sweep-from-state", "init:vector", "init:int", "order:permuted"]
+                       "entry:steps", "entry:sample", "entry:run_sweep", "entry:sweep-from-state", "init:vector", "init:int", "order:permuted", "order:spectator"]
 
     def setup(self) -> None:
         from simkit import repoenv
@@ -132,6 +132,9 @@ class C02(Check):
             if len(order) > 1 and tape.chance(1, 3, "permute-order?"):
                 order = tape.shuffle(order, "order")
                 ctx.probe("order:permuted")
+            if len(order) <= 3 and tape.chance(1, 5, "spectator?"):
+                order.insert(tape.draw(len(order) + 1, "spectator-pos"), cirq.LineQubit(7))
+                ctx.probe("order:spectator")
             D = int(np.prod([q.dimension for q in order])) if order else 1
             init_kind = tape.weighted([4, 2, 2], "init")
             if init_kind == 0 or kind == "clifford" and init_kind == 2:
